@@ -917,6 +917,13 @@ impl SctpTransport {
                 } => {},
                 _ = close_rx_2.notified() => {}
             }
+            // Whatever the association queued as its last words (e.g. the
+            // SHUTDOWN-ACK answering a peer's SHUTDOWN) still goes out.
+            while let Ok(packet) = outgoing_packet_rx.try_recv() {
+                if dtls_transport_clone.send(packet).await.is_err() {
+                    break;
+                }
+            }
         };
 
         (transport, runner)
@@ -1670,6 +1677,13 @@ impl SctpInner {
                     let tag = self.remote_verification_tag.load(Ordering::SeqCst);
                     self.send_chunk(CT_SHUTDOWN_ACK, 0, Bytes::new(), tag)
                         .await?;
+                    // The peer is closing the association. SHUTDOWN-COMPLETE is
+                    // not tracked, so acknowledging is the last thing this side
+                    // does with it: report the closure instead of staying
+                    // "established" until heartbeats eventually fail.
+                    self.print_stats("REMOTE_SHUTDOWN");
+                    *self.close_reason.lock() = Some("REMOTE_SHUTDOWN".into());
+                    self.set_state(SctpState::Closed);
                 }
                 CT_SHUTDOWN_ACK => {
                     debug!("SCTP SHUTDOWN ACK received, closing connection");
